@@ -5,8 +5,8 @@ CONSTANTS
   MaxN = 3
   SymN = 3
   GraphMod = 3
-  Decors = {"none", "dangling", "wrong", "null"}
-  DecorMod = 4
+  Decors = {"none", "dangling", "wrong", "null", "direct"}
+  DecorMod = 6
   FunMod = 3
   OutlineNs = {1, 2}
   Outline1Mod = 6
